@@ -367,3 +367,29 @@ fn thin_history<const STEPS: usize>() {
 }
 h!(t_thin_history_3, 5, thin_history::<3>());
 h!(t_thin_history_2, 4, thin_history::<2>());
+
+
+// ---- handles made from a Box: the value moves into the shared block (no copy survives in the Box, whose
+//      own storage - if it has any - is released exactly once) and then lives as long as the handle does
+static mut ZB1_DROPS: u8 = 0;
+struct ZBox1;
+impl Drop for ZBox1 {
+    fn drop(&mut self) {
+        unsafe { ZB1_DROPS += 1 };
+    }
+}
+h!(q_from_box_lifetimes, 5, {
+    let v: u8 = kani::any();
+    let a: Arc<Dt> = Arc::from(Box::new(Dt::new(0, v)));
+    assert!(ledger_zero() && a.v == v && n_live() == 1, "From<Box<T>>: value destroyed early, or the Box's storage kept");
+    let b = a.clone();
+    drop(a);
+    assert!(ledger_zero() && b.v == v, "the value must outlive every handle but the last");
+    drop(b);
+    assert!(ledger_is(0, 1) && n_live() == 0, "the value is destroyed exactly once, with the last handle, and no block leaks");
+    // a Box of a zero-sized value owns no storage: nothing of it may reach the allocator
+    let z: Arc<ZBox1> = Arc::from(Box::new(ZBox1));
+    assert!(unsafe { ZB1_DROPS } == 0 && n_live() == 1);
+    drop(z);
+    assert!(unsafe { ZB1_DROPS } == 1 && n_live() == 0);
+});
